@@ -1153,9 +1153,77 @@ impl<'r> Sh<'r> {
     }
 }
 
+impl<'r> Sh<'r> {
+    /// A LONG function whose result does not fit the INTEGER it is assigned to: the
+    /// failing statement is the caller's, raised when the callee has already returned,
+    /// at the very position of the call (which is also the call site of the activation
+    /// that is on top while the error is reported). The recursion makes the same
+    /// source position appear several times in the list of call sites.
+    fn return_cast_shape(&mut self) -> Scenario {
+        let depth = 1 + self.rng.below(3) as i32;
+        let handled = self.rng.chance(1, 2);
+        let mut main = vec![];
+        if handled {
+            main.push(self.st(StmtKind::OnErrorGoto("H1".into())));
+        }
+        main.push(self.trace(&[]));
+        main.push(self.st(StmtKind::Assign {
+            var: "G1%".into(),
+            expr: Expr::Call("FL&".into(), vec![Expr::Int(depth)]),
+        }));
+        main.push(self.trace(&["G1%", "G3%"]));
+        main.push(self.st(StmtKind::End));
+        if handled {
+            self.handler(&mut main, ResumeKind::Next, None);
+        }
+        let rec = self.st(StmtKind::Assign {
+            var: "L1%".into(),
+            expr: Expr::Call(
+                "FL&".into(),
+                vec![Expr::Paren(Box::new(Expr::Sub(
+                    Box::new(Expr::Var("P1%".into())),
+                    Box::new(Expr::Int(1)),
+                )))],
+            ),
+        });
+        let big = *self.rng.pick(&[70000, 40000, 32768, 5]);
+        let body = vec![
+            self.trace(&["P1%"]),
+            self.st(StmtKind::IfLine {
+                cond: Expr::Cmp(
+                    CmpOp::Gt,
+                    Box::new(Expr::Var("P1%".into())),
+                    Box::new(Expr::Int(0)),
+                ),
+                then_s: Box::new(rec),
+                else_s: None,
+            }),
+            self.st(StmtKind::Assign {
+                var: "FL&".into(),
+                expr: Expr::Int(big),
+            }),
+            self.trace(&["L1%"]),
+        ];
+        Scenario {
+            main,
+            procs: vec![Proc {
+                name: "FL&".into(),
+                is_function: true,
+                params: vec!["P1%".into()],
+                body,
+                is_static: false,
+            }],
+            stdin: vec![],
+        }
+    }
+}
+
 pub fn gen_resume_shapes(rng: &mut Rng) -> Scenario {
-    let shape = rng.below(2);
+    let shape = rng.below(3);
     let mut g = Sh { rng, next: 0, t: 0 };
+    if shape == 2 {
+        return g.return_cast_shape();
+    }
     let mut main: Vec<Stmt> = vec![];
     let mut procs: Vec<Proc> = vec![];
     main.push(g.trace(&[]));
